@@ -28,7 +28,7 @@ static inline std::string mutate_field(Ctx &c, ref::Fields &F) {
     case 0: case 1: { size_t i = ints[c.pick(ints.size())]; ref::Fld &x = F.f[i]; x.v = boundary_value(c); x.autoval = false; return nm(i) + ":=" + u128s(x.v); }
     case 2: { size_t i = ints[c.pick(ints.size())]; ref::Fld &x = F.f[i]; int64_t d = (int64_t)c.draw(6) - 3; if (d >= 0) d++;
               if (x.autoval) { x.adj += d; return nm(i) + "(auto)+=" + std::to_string(d); }
-              x.v = (ref::u128)((int64_t)(uint64_t)x.v + d) & (((ref::u128)1 << 64) - 1); return nm(i) + "+=" + std::to_string(d); }
+              x.v = (ref::u128)(uint64_t)((uint64_t)x.v + (uint64_t)d); return nm(i) + "+=" + std::to_string(d); }
     case 3: { size_t i = ints[c.pick(ints.size())]; ref::Fld &x = F.f[i]; x.pad = 1 + c.draw(10); return nm(i) + " encoded in " + std::to_string(x.pad) + " bytes"; }
     case 4: { size_t i = ints[c.pick(ints.size())]; ref::Fld &x = F.f[i]; x.raw_set = true; size_t n = 1 + c.draw(11); x.raw.clear();
               uint64_t style = c.draw(2);
